@@ -287,6 +287,9 @@ def w4(chk, repo):
         em, sm = _out(r, "element_mass"), _out(r, "structural_mass")
         sym = _flag(r.sigma, "symmetry")
         SIG = sp.Function("SIG")
+        if em is not None and sm is not None and sym is None:
+            chk.violation("W4", "Weight.structural_mass %s" % tag, c.where, "structural_mass = %s does not consult the symmetry option: a half model and a full model cannot both get the mass of the whole wing" % _short(sm), algebraic=True)
+            continue
         if em is None or sm is None or sym is None:
             chk.undecided("W4", "Weight %s" % tag, c.where, "expressions not extracted", algebraic=True)
             continue
